@@ -11,6 +11,18 @@ import glob, os, re, sys
 
 REPO_MOCK = '/repo/src/mock'
 OUT = os.path.join(os.path.dirname(os.path.dirname(os.path.abspath(__file__))), 'lean', 'Unimock', 'Generated', 'Mirrors.lean')
+import os as _os
+_TMP = f'.{_os.getpid()}.tmp'
+def _finalise(tmp, out):
+    """replace `out` atomically, and only when the content changed"""
+    import os
+    new = open(tmp).read()
+    old = open(out).read() if os.path.exists(out) else None
+    if new != old:
+        os.replace(tmp, out)
+    else:
+        os.remove(tmp)
+
 RUST_SRC = glob.glob('/root/.rustup/toolchains/nightly-*/lib/rustlib/src/rust/library')
 RUST_SRC = sorted(RUST_SRC)[-1] if RUST_SRC else ''
 REG = glob.glob(os.path.expanduser('~/.cargo/registry/src/*'))
@@ -140,7 +152,7 @@ for f in sorted(glob.glob(os.path.join(REPO_MOCK, '*.rs'))):
 
 names = sorted({n for r in rows for n, _ in r[3]} | {n for r in rows for n, _ in r[4]})
 nid = {n: i for i, n in enumerate(names)}
-with open(OUT, 'w') as fh:
+with open(OUT + _TMP, 'w') as fh:
     fh.write('/-! GENERATED by /verif/tools/translate_mirrors.py from /repo/src/mock/*.rs and the upstream sources on disk — do not edit. -/\n')
     fh.write('namespace Unimock.Generated\n\n')
     fh.write('/-- method names (index = id used below) -/\ndef methodNames : List String :=\n  [' + ', '.join(f'"{n}"' for n in names) + ']\n\n')
@@ -151,6 +163,7 @@ with open(OUT, 'w') as fh:
         fmt = lambda ms: '[' + ', '.join(f"({nid[n]}, {'true' if p else 'false'})" for n, p in ms) + ']'
         lines.append(f"   -- {f}: {t} mirrors {mirror}\n   ({fmt(mine)}, {fmt(up)})")
     fh.write(',\n'.join(lines) + '\n  ]\n\nend Unimock.Generated\n')
+_finalise(OUT + _TMP, OUT)
 print(f"translated {len(rows)} mirrored traits; problems: {problems}")
 for (f, t, mirror, mine, up) in rows:
     md, ud = dict(mine), dict(up)
